@@ -56,6 +56,9 @@ def spec_from_seed(run_seed, tier):
     abort_first = {"at": rnd.choice([0, 1, 2, 3, 5, 8, 13, 21]), "how": rnd.choice(["raise", "interrupt", "value"])} if rnd.random() < 0.12 else None
     return {"kind": "atomgraph", "prop": "C18", "text": text, "tags": sorted(tags), "regenerate": rnd.choice([0, 0, 1, 2]), "abort_first": abort_first,
             "copies": rnd.randrange(1, 1000) if rnd.random() < 0.25 else None,
+            # process restart: the same text and generator seeds in fresh interpreters with other string hash seeds
+            "restart": ({"seeds": [rnd.randrange(1, 1000) for _ in range(2)], "hashseeds": rnd.sample(range(1, 400), 2)}
+                        if rnd.random() < (0.03 if tier == "quick" else 0.02) else None),
             "sched": {"seed": rnd.randrange(1 << 48), "choice_policy": rnd.choice(["faithful", "uniform_support", "rare", "mix", "first", "last"]),
                       "draw_policy": rnd.choice(["natural", "low", "mid", "tails"]), "script": None, "budget": 3000}}
 
@@ -218,6 +221,24 @@ def execute(spec):
             if ref is not None and both is not None and not ref[0].startswith("exception") and any(x != ref[0] for x in both):
                 viol("equal_seed_different_molecule", f"a fresh AtomGraph with seed {seed} generates {ref[0]}; an AtomGraph with that seed and its deep copy "
                      f"(generator in the same state) generate {both}")
+        if spec.get("restart") and not viols:
+            from .. import freshproc
+
+            job = {"job": "atomgraph", "text": text, "seeds": spec["restart"]["seeds"]}
+            here = freshproc.run_job(g, job)
+            there = freshproc.restart(job, spec["restart"]["hashseeds"])
+            stats["fault:process_restart"] = len(there)
+            for hs, r in sorted(there.items()):
+                if "child_failed" in r:
+                    return {"harness_error": f"restarted interpreter (PYTHONHASHSEED={hs}) failed: {r['child_failed']}", "violations": []}
+                if "ok" in here and "ok" in r and r != here:
+                    viol("equal_seed_different_molecule", f"generator seeds {job['seeds']}: this process generates {here['ok']}, a fresh interpreter "
+                         f"(PYTHONHASHSEED={hs}) generates {r['ok']}")
+                    break
+                if ("exception" in here) != ("exception" in r):
+                    viol("equal_seed_different_molecule", f"generator seeds {job['seeds']}: this process gives {here}, a fresh interpreter "
+                         f"(PYTHONHASHSEED={hs}) gives {r}")
+                    break
         return _result(spec, viols, world, sched, stats, n_multi, n_inst)
     except WallTimeout:
         return {"harness_error": "wall-clock watchdog fired", "violations": []}
